@@ -247,3 +247,25 @@ def random_histories(N, M, seed, count, length=40):
             lines.append(line)
         lines += ['del %s' % NAMES[x] for x in range(4)]   # invalid for unconstructed ones: answered "invalid" by both sides
         yield dict(cls='history', state='random', lines=lines, test=None, seed=seed, index=h)
+
+
+def iter_fault_cases(N, M, tier):
+    """monitor-only cases: the caller's iterators throw at their k-th operation (` !k`); element faults may be combined"""
+    x = 'a'
+    for label, pre, s in prefix_states(x, N, tier='quick'):
+        if not label.startswith(('exact', 'slack', 'heapinl')):
+            continue
+        for n in (1, 2, 4):
+            ops = []
+            for kind in ('fw', 'in'):
+                ops += ['asr %s %s %s' % (x, kind, vals(70, n)), 'app %s %s %s' % (x, kind, vals(70, n)), 'insr %s %d %s %s' % (x, s, kind, vals(70, n))]
+                if kind == 'fw':
+                    ops += ['insr %s %d fw %s' % (x, p, vals(70, n)) for p in sorted(set([0, s // 2]))]
+            for line in ops:
+                for k in range(0, 2 * n + 3):
+                    fu = [f.format(x=x) for f in FOLLOW_UP]
+                    yield dict(cls='iterfault:' + line.split()[0], state=label, lines=pre + [line + ' !%d' % k] + fu, test=len(pre), fault=('it', k))
+    for n in (0, 1, N, N + 2):
+        for kind in ('fw', 'in'):
+            for k in range(0, 2 * n + 3):
+                yield dict(cls='iterfault:newr', state='none', lines=['newr %s %s 0 %s !%d' % (x, kind, vals(1, n), k), 'new %s 0' % x, 'pb %s v5' % x, 'del %s' % x], test=0, fault=('it', k))
